@@ -57,6 +57,23 @@ def mutations(src, alpha, limit=None, stride=1):
     return out
 
 
+def raised_deliberately(exc, package='TexSoup'):
+    """True iff the innermost frame of the traceback is a `raise` statement inside the package."""
+    import linecache
+    tb = exc.__traceback__
+    last = None
+    while tb is not None:
+        last = tb
+        tb = tb.tb_next
+    if last is None:
+        return False
+    fn = last.tb_frame.f_code.co_filename.replace('\\', '/')
+    if '/%s/' % package not in fn:
+        return False
+    line = linecache.getline(fn, last.tb_lineno).strip()
+    return line.startswith('raise ') or line == 'raise'
+
+
 def outcome(src, tolerance=0, skip_envs=()):
     """Classify TexSoup(src): ('ok', soup) | ('reject', kind) | ('leak', kind, exc)."""
     from TexSoup import TexSoup
@@ -66,7 +83,10 @@ def outcome(src, tolerance=0, skip_envs=()):
     except EOFError:
         return ('reject', 'EOFError')                 # never raised by accident: always the parser's diagnostic
     except TypeError as e:
-        if 'malformed' in str(e).lower():
+        # the malformed-argument diagnostic is a TypeError that the parser raises itself (a `raise` statement
+        # in the package is the innermost frame); a TypeError that Python raises for an internal slip is a leak.
+        # The wording of the message is not part of the contract.
+        if 'malformed' in str(e).lower() or raised_deliberately(e):
             return ('reject', 'TypeError')
         return ('leak', 'TypeError-undocumented', e)
     except AssertionError as e:
